@@ -13,8 +13,8 @@
 //!   {"op":"scalar_index"}                       btree on val
 //!   {"op":"optimize", "mode": "append"|"merge"|"default"}
 //!   {"op":"compact"}
-//!   {"op":"query", "q":[x,y], "k":k, "filter": pred | null, "variants":[variant...]}
-//! Variant: {"use_index":bool, "probes":"all"|"over"|"min1", "refine":0|n, "prefilter":bool, "fast":bool}
+//!   {"op":"query", "q":[x,y], "k":k, "filter": pred, "hf": bool (apply the filter), "variants":[variant...]}
+//! Variant: {"use_index":bool, "probes":"all"|"over"|"min1"|"one", "refine":0|n, "prefilter":bool, "fast":bool}
 //! Distances are recorded as integers: exact for l2 / dot on the grid; cosine in units of 1e-7.
 use std::path::PathBuf;
 use std::sync::Arc;
@@ -104,6 +104,8 @@ struct Ctx {
     metric: String,
     nparts: usize,
     mutate: String,
+    /// record the physical plan of every query (diagnosis only)
+    explain: bool,
     /// version just before the most recent delete (mutation `stale-deletions` queries it)
     pre_delete_version: Option<u64>,
 }
@@ -195,7 +197,7 @@ async fn run_query(ctx: &Ctx, step: &Value, var: &Value) -> lance::Result<Value>
     let probes = var["probes"].as_str().unwrap_or("all");
     let mut sc = ds.scan();
     sc.project(&["id"])?;
-    let has_filter = step.get("filter").map(|f| !f.is_null()).unwrap_or(false);
+    let has_filter = step.get("hf").and_then(|f| f.as_bool()).unwrap_or(false);
     if has_filter {
         if ctx.mutate != "drop-filter" {
             sc.filter(&sql_pred(&step["filter"]))?;
@@ -232,6 +234,7 @@ async fn run_query(ctx: &Ctx, step: &Value, var: &Value) -> lance::Result<Value>
     if fast {
         sc.fast_search();
     }
+    let plan = if ctx.explain { sc.explain_plan(false).await.unwrap_or_default() } else { String::new() };
     let batches: Vec<RecordBatch> = sc.try_into_stream().await?.try_collect().await?;
     let mut rows = vec![];
     let mut raw = vec![];
@@ -251,6 +254,9 @@ async fn run_query(ctx: &Ctx, step: &Value, var: &Value) -> lance::Result<Value>
     if ctx.mutate == "unsorted" && rows.len() > 1 {
         rows.reverse();
         raw.reverse();
+    }
+    if ctx.explain {
+        return Ok(json!({"rows": rows, "raw": raw, "plan": plan}));
     }
     Ok(json!({"rows": rows, "raw": raw}))
 }
@@ -323,7 +329,13 @@ async fn exec_step(ctx: &mut Ctx, step: &Value) -> (String, String, Value) {
                 for var in step["variants"].as_array().unwrap() {
                     let fut = std::panic::AssertUnwindSafe(run_query(ctx, step, var)).catch_unwind();
                     match fut.await {
-                        Ok(Ok(v)) => results.push(json!({"variant": var, "res": "ok", "rows": v["rows"], "raw": v["raw"]})),
+                        Ok(Ok(v)) => {
+                            let mut r = json!({"variant": var, "res": "ok", "rows": v["rows"], "raw": v["raw"]});
+                            if let Some(p) = v.get("plan") {
+                                r["plan"] = p.clone();
+                            }
+                            results.push(r)
+                        }
                         Ok(Err(e)) => results.push(json!({"variant": var, "res": classify(&e), "text": err_text(&e), "rows": [], "raw": []})),
                         Err(_) => results.push(json!({"variant": var, "res": "panic", "text": "", "rows": [], "raw": []})),
                     }
@@ -368,6 +380,7 @@ fn main() {
             metric: scn.get("metric").and_then(|v| v.as_str()).unwrap_or("l2").to_string(),
             nparts: 0,
             mutate: mutate.clone(),
+            explain: args.flag("explain"),
             pre_delete_version: None,
         };
         w.emit(json!({"ev": "reset", "scn": id, "stable": ctx.stable, "metric": ctx.metric}));
